@@ -5,7 +5,8 @@ import WindVerif.Proofs.PoolLiveAux9
 import WindVerif.Proofs.PoolLiveAux13
 /-! Liveness of the pool model (C02): no deadlock and termination, under every interleaving.
 
-The development is in `PoolLiveAux0` … `PoolLiveAux9`: the schedule of D19 (`Aux0`), the liveness invariant `LiveInv`
+The development is in `PoolLiveAux0` … `PoolLiveAux13`: the schedule of the former D19 — D19 repaired: it now runs on to
+`done` — (`Aux0`), the liveness invariant `LiveInv`
 (`Aux1`), the progress argument from the invariants (`Aux2`), the preservation of `LiveInv` by the steps of the workers
 (`Aux3`, `Aux4`), the feeder and the replace thread (`Aux5`) and the consumer (`Aux6`–`Aux8`), the initial state
 (`Aux9`), and the termination measure `meas` with its decrease along every step (`Aux10`–`Aux13`). -/
@@ -34,11 +35,12 @@ theorem live_reach (cfg : Cfg) (hw : WellCfg cfg) (hf : NoFaults cfg) (s : St) (
 
 /-- no deadlock: in every reachable state in which the caller's program (enter, all its calls, exit) is not over, some
 thread can move — the consumer is never left blocked on a result that will not come, the feeder never on a full queue
-nobody drains, `__exit__` never on its stop orders (under `ExitCap`) -/
-theorem imap_no_deadlock (cfg : Cfg) (hw : WellCfg cfg) (hf : NoFaults cfg) (hx : ExitCap cfg) (s : St) (h : Reach cfg s)
+nobody drains, `__exit__` never on its stop orders (D19 repaired: whatever the bound of the work queue — on a full queue
+either a live worker takes a stop order or, everybody listed having an exit code, the loop of stop orders is left) -/
+theorem imap_no_deadlock (cfg : Cfg) (hw : WellCfg cfg) (hf : NoFaults cfg) (s : St) (h : Reach cfg s)
     (hnd : s.cpc ≠ .done) : ∃ t, (step s t).isSome := by
   obtain ⟨hS, hL, hV, hc⟩ := live_reach cfg hw hf s h
-  exact progress hS hL hV (by rw [hc]; exact hw) (by rw [hc]; exact hx) hnd
+  exact progress hS hL hV (by rw [hc]; exact hw) hnd
 
 /-- termination: there is a bound on the length of every execution of a configuration, whatever the schedule — however
 slowly the input iterator, a worker or the caller is scheduled, nothing spins -/
@@ -67,22 +69,44 @@ theorem imap_terminates (cfg : Cfg) (hw : WellCfg cfg) (hf : NoFaults cfg) :
   omega
 
 /-- hence every maximal execution (one that cannot be extended) ends with the caller finished -/
-theorem imap_maximal_final (cfg : Cfg) (hw : WellCfg cfg) (hf : NoFaults cfg) (hx : ExitCap cfg) (sched : List Tid) (s : St)
+theorem imap_maximal_final (cfg : Cfg) (hw : WellCfg cfg) (hf : NoFaults cfg) (sched : List Tid) (s : St)
     (h : run (init cfg) sched = some s) (hmax : ∀ t, step s t = none) : s.cpc = .done := by
   cases hd : decide (s.cpc = .done)
   · exfalso
-    obtain ⟨t, ht⟩ := imap_no_deadlock cfg hw hf hx s ⟨sched, h⟩ (by simpa using hd)
+    obtain ⟨t, ht⟩ := imap_no_deadlock cfg hw hf s ⟨sched, h⟩ (by simpa using hd)
     rw [hmax t] at ht; cases ht
   · simpa using hd
 
-/-- outside `ExitCap` the exit can block for good (D19, recorded as a known finding): a concrete schedule of a factory pool
-with 2 workers, quota 1, an int work-queue bound of 1 and one call of 2 chunks ends in a state in which nobody can move
-while the caller stands in `__exit__` -/
+/-- the configuration of the former finding D19: a factory pool with 2 workers, quota 1, an int work-queue bound of 1 and
+one call of 2 chunks — both workers can retire unreplaced, so that only one of the two stop orders of `__exit__` fits into
+the work queue and nobody is left to take it -/
 def d19Cfg : Cfg :=
   { nWorkers := 2, workCap := some 1, resCap := none, factory := true, quota := some 1, waitReady := false,
     calls := [⟨2, true⟩], beginFault := [], itemFault := [] }
 
-theorem exit_can_block : ∃ sched s, run (init d19Cfg) sched = some s ∧ s.cpc ≠ .done ∧ ∀ t, step s t = none :=
-  exit_can_block_aux
+/-- D19 repaired: the concrete schedule that used to end with the caller blocked in `__exit__` for good (second stop order
+on a full work queue, every worker gone) now goes on — one more step of the consumer — to the caller being done -/
+theorem exit_unblocked : ∃ sched s, run (init d19Cfg) sched = some s ∧ s.cpc = .done :=
+  exit_unblocked_aux
+
+/-- the loop of stop orders is left early only when nobody is left: a step of the consumer at a stop order on a full work
+queue (in a reachable state, any configuration, faults included) ends `__exit__` and every worker ever created has
+exited -/
+theorem exit_skip_all_exited (cfg : Cfg) (s s' : St) (h : Reach cfg s) (i : Nat) (hpc : s.cpc = .exitPut i)
+    (hfull : capFull s.cfg.workCap s.workQ = true) (hs : step s .c = some s') : s'.cpc = .done ∧ AllExited s' := by
+  obtain ⟨hL, _⟩ := LInv_reach h
+  have hs : stepC s = some s' := hs
+  unfold stepC at hs
+  simp only [hpc, hfull, if_true] at hs
+  split at hs
+  · rename_i hall
+    simp only [Option.some.injEq] at hs; subst hs
+    refine ⟨rfl, ?_⟩
+    intro w hw
+    have hw : w ∈ s.workers := hw
+    by_cases hne : w.pc = .exited
+    · exact hne
+    · exact workerExited_all hL (List.all_eq_true.1 hall w.wid (hL.listed w hw hne)) w hw rfl
+  · cases hs
 
 end WindVerif.Pool
